@@ -594,6 +594,18 @@ func (x *Exec) bitop(op token.Token, a, b *smt.Term, bits int, signed bool) *smt
 // valuesEqual is Go's == on non-scalar comparable values.
 func (x *Exec) valuesEqual(a, b Value) *smt.Term {
 	B := x.B
+	if ce, ok := a.(CondErrV); ok {
+		if n, isn := isNilValue(b); isn && n {
+			return B.Not(ce.Cond)
+		}
+		return x.valuesEqual(x.concErr(a), b)
+	}
+	if ce, ok := b.(CondErrV); ok {
+		if n, isn := isNilValue(a); isn && n {
+			return B.Not(ce.Cond)
+		}
+		return x.valuesEqual(a, x.concErr(b))
+	}
 	an, aok := isNilValue(a)
 	bn, bok := isNilValue(b)
 	if aok && bok && (an || bn) {
@@ -763,7 +775,7 @@ func (x *Exec) convert(v Value, from, to types.Type) Value {
 
 func (x *Exec) makeInterface(v Value, t types.Type) Value {
 	switch v.(type) {
-	case ErrV, ModelV:
+	case ErrV, ModelV, CondErrV:
 		return v
 	}
 	return IfaceV{T: t, V: v}
@@ -779,6 +791,7 @@ func (x *Exec) dynType(v Value) types.Type {
 }
 
 func (x *Exec) typeAssert(v Value, i *ssa.TypeAssert) Value {
+	v = x.concErr(v)
 	ok := false
 	var res Value
 	switch u := v.(type) {
